@@ -109,6 +109,29 @@ var skels = []skel{
 		}
 		return Query("T", &Op{K: "where", X: e})
 	}},
+	{"in-list-45", "str", func(h *E, _ Ident) *Program {
+		// 45 string literals; the hole is the 40th
+		e := In(Name("a"))
+		for i := 0; i < 45; i++ {
+			if i == 39 {
+				e.Kids = append(e.Kids, h)
+			} else {
+				e.Kids = append(e.Kids, Str(fmt.Sprintf("'key%d'", i), fmt.Sprintf("key%d", i)))
+			}
+		}
+		return Query("T", &Op{K: "where", X: e})
+	}},
+	{"in-list-130", "str", func(h *E, _ Ident) *Program {
+		e := In(Name("a"))
+		for i := 0; i < 130; i++ {
+			if i == 128 {
+				e.Kids = append(e.Kids, h)
+			} else {
+				e.Kids = append(e.Kids, Num(fmt.Sprint(i)))
+			}
+		}
+		return Query("T", &Op{K: "where", X: e})
+	}},
 	{"strcat-wide", "str", func(h *E, _ Ident) *Program {
 		e := Call("strcat")
 		for i := 0; i < 12; i++ {
